@@ -541,7 +541,7 @@ func (RevocationOracle) checkToken(m *VM, rec *Rec, t *TokObj) {
 		}
 		k := hex.EncodeToString(id)
 		ev := t.SignEvents[i]
-		if prev, ok := reg[k]; ok && prev != ev {
+		if prev, ok := reg[k]; ok && prev != ev && !m.Plan.Replayed {
 			m.Violate("C17", "id-not-unique", "two blocks signed at different times share a revocation id", fmt.Sprintf("signing events op %d and op %d both produced id %q", prev, ev, clipS(k)))
 		}
 		reg[k] = ev
